@@ -106,7 +106,7 @@ theorem assign_rel (m : State) (j : Mon) (x : Nat) (val : Int) (v0 : Var) (g : V
     Rel { m with vars := m.vars.modify x (fun v => g { v with value := some val }) } (j.assigned x val) := by
   have hlc : x < j.lastChange.length := by
     rw [h.lcLen]; exact (List.getElem?_eq_some_iff.mp hx).1
-  refine ⟨h.ok, h.tgt, h.now, h.awaiting, ?_, ?_, ?_, ?_, ?_, h.subs.state rfl rfl (Int.le_refl _), ?_⟩
+  refine ⟨h.ok, h.tgt, h.now, h.awaiting, ?_, ?_, ?_, ?_, ?_, h.subs.state rfl rfl (Int.le_refl _), ?_, Int.le_refl _⟩
   · show j.evented = _
     rw [map_modify_same _ _ _ _ (fun a => by simp [(hg _).1])]; exact h.ev
   · show j.rate = _
@@ -204,7 +204,7 @@ theorem assign_trigger_rel (m : State) (j : Mon) (x : Nat) (val : Int) (v0 : Var
   obtain ⟨hf, hnow, hvars, hnsid, hsub3, hcv⟩ := hb
   show Rel (broadcast m2).1 (((j.assigned x val).onObs (.trig x m.now)).obsRun (broadcast m2).2)
   rw [hj2]
-  refine ⟨?_, ?_, ?_, ?_, ?_, ?_, ?_, ?_, ?_, hsub3, ?_⟩
+  refine ⟨?_, ?_, ?_, ?_, ?_, ?_, ?_, ?_, ?_, hsub3, ?_, Int.le_refl _⟩
   · rw [hf.ok]; exact h.ok
   · rw [hf.target, hnow]; exact h.tgt
   · rw [hf.now, hnow]; exact Int.le_refl _
